@@ -1,6 +1,7 @@
 // C13: drive modSwitchFromTorus32 / modSwitchToTorus32 / approxPhase / dtot32 / t32tod over grids and print rows.
 #include <tfhe.h>
 #include "vh.h"
+#include <cmath>
 
 static void row_ms(uint32_t x, int32_t M) {
     int32_t r = modSwitchFromTorus32((Torus32)x, M);
@@ -55,6 +56,11 @@ int main(int argc, char** argv) {
         }
         for (long j = 0; j < per * 8; j++) { uint32_t x = rng.u32(); row_conv(x, (int)rng.below(2001) - 1000); }
         for (int d = -4; d <= 4; d++) { row_conv(0x80000000u + (uint32_t)d, d * 3); row_conv((uint32_t)d, -d); row_conv(0x7fffffffu + (uint32_t)d, 1 << 19); }
+        // periodicity at large magnitudes: x with few fractional bits so that t32tod(x) + 2^e is exact in a double (e up to 51); reported exponent instead of the integer
+        for (int e = 20; e <= 51; e++) for (int sgn = -1; sgn <= 1; sgn += 2) for (int q = 0; q < 4; q++) {
+            int fb = 52 - e; if (fb > 32) fb = 32; uint32_t x = fb >= 32 ? rng.u32() : (rng.u32() >> (32 - fb)) << (32 - fb); if (q == 0) x = 0x80000000u; if (q == 1 && fb >= 2) x = 0x40000000u;
+            double d = t32tod((Torus32)x); Torus32 r1 = dtot32(d); Torus32 r2 = dtot32(d + sgn * ldexp(1.0, e));
+            VH_B; vh_s("k", "conv"); VH_C; vh_w("x", x); VH_C; vh_i("p", sgn * e); VH_C; vh_w("r1", (uint32_t)r1); VH_C; vh_w("r2", (uint32_t)r2); VH_E; }
     } else if (!strcmp(mode, "mix")) {    // histories: the calls that make up a row are interleaved with calls for other message-space sizes
         std::vector<long> Ms = vh_list(vh_sarg(argc, argv, "--M", "2,3,4,5,7,8,16,1000,1024,2048,4096,32768"));
         long iters = vh_arg(argc, argv, "--iters", 2000); VhRng rng(vh_arg(argc, argv, "--seed", 1));
